@@ -61,6 +61,8 @@ fn gc(w: &mut World, sc_reqs: &[(Vec<Req>, Vec<u32>)]) {
         .chain(w.solvables.values().map(|s| s.name))
         .collect();
     w.packages.retain(|k, _| used_names.contains(k));
+    let kept: BTreeSet<u32> = w.packages.keys().copied().collect();
+    w.alt_rank.retain(|k, _| kept.contains(k));
 }
 
 fn remove_solvable(sc: &mut Scenario, s: u32) {
@@ -71,6 +73,9 @@ fn remove_solvable(sc: &mut Scenario, s: u32) {
     if let Some(p) = w.packages.get_mut(&sv.name) {
         p.candidates.retain(|x| *x != s);
         p.rank.retain(|x| *x != s);
+        if let Some((_, alt)) = w.alt_rank.get_mut(&sv.name) {
+            alt.retain(|x| *x != s);
+        }
         if p.favored == Some(s) {
             p.favored = None;
         }
@@ -115,6 +120,9 @@ fn candidates(sc: &Scenario) -> Vec<Scenario> {
     push(&|c| c.reentrant_sort = false);
     push(&|c| c.render = false);
     push(&|c| c.world.filter_reversed = false);
+    if !sc.world.alt_rank.is_empty() {
+        push(&|c| c.world.alt_rank.clear());
+    }
     push(&|c| c.cancel_during_render = false);
     push(&|c| c.rewrap_before_render = false);
     for bit in [1u8, 2, 4, 8] {
